@@ -1364,6 +1364,9 @@ func (fx *FnExec) isNil(v Val) *Term {
 
 // bytesOf abstracts a byte sequence to a term of sort Bytes: rng(array, off, len).
 func (fx *FnExec) bytesOf(st *State, v CVal) *Term {
+	if st != nil && st.pc != nil {
+		fx.curPC = st.pc
+	}
 	bs := UnintSort("Bytes")
 	byteT := types.Typ[types.Uint8]
 	switch x := v.V.(type) {
@@ -1585,9 +1588,64 @@ func (fx *FnExec) rngTermRef(arr, off, ln, ref *Term) *Term {
 		if !fx.rngSeen[t] {
 			fx.rngSeen[t] = true
 			fx.rngs = append(fx.rngs, rngRec{arr, off, ln, ref})
+			fx.rngBackward(t, arr, off, ln, ref)
 		}
 	}
 	return t
+}
+
+type arrOrigin struct {
+	// copy image: new[doff+k] = src[soff+k] for k < n, elsewhere = old
+	src, soff, srcRef *Term
+	// common: the array before the write and the written window [doff, doff+n)
+	old, doff, n *Term
+}
+
+// rngBackward links a newly requested byte string to the arrays its array was derived from (demand driven):
+// through a join (ite of heap families), through a copy (the copied window denotes the source's bytes) and
+// through any write elsewhere (bytes outside the written window are those of the previous array).
+func (fx *FnExec) rngBackward(t, arr, off, ln, ref *Term) {
+	if fx.rngDepth > 14 {
+		return
+	}
+	fx.rngDepth++
+	defer func() { fx.rngDepth-- }()
+	c := fx.c
+	if arr.Op == "select" && arr.Args[0].Op == "ite" {
+		fam := arr.Args[0]
+		idx := arr.Args[1]
+		a1 := c.Select(fam.Args[1], idx)
+		a0 := c.Select(fam.Args[2], idx)
+		fx.assumeGlobal(c.Eq(t, c.Ite(fam.Args[0], fx.rngTermRef(a1, off, ln, idx), fx.rngTermRef(a0, off, ln, idx))))
+		return
+	}
+	if arr.Op == "select" && arr.Args[0].Op == "store" && arr.Args[0].Sort.Idx == RefSort {
+		// the array of object idx read through an update of ANOTHER object's array
+		fam := arr.Args[0]
+		idx := arr.Args[1]
+		inner := c.Select(fam.Args[0], idx)
+		ne := c.Not(c.Eq(fam.Args[1], idx))
+		eq := c.Eq(t, fx.rngTermRef(inner, off, ln, idx))
+		fx.assumeGlobal(c.Implies(ne, eq))
+		return
+	}
+	o, ok := fx.arrOrigins[arr]
+	if !ok {
+		return
+	}
+	end := c.BVBin("bvadd", off, ln)
+	wend := c.BVBin("bvadd", o.doff, o.n)
+	if o.src != nil {
+		inside := c.And(c.BVCmp("bvsle", o.doff, off), c.BVCmp("bvsle", end, wend))
+		srcOff := c.BVBin("bvadd", o.soff, c.BVBin("bvsub", off, o.doff))
+		eq := c.Eq(t, fx.rngTermRef(o.src, srcOff, ln, o.srcRef))
+		fx.assumeGlobal(c.Implies(inside, eq))
+	}
+	if o.old != nil {
+		outside := c.Or(c.BVCmp("bvsle", end, o.doff), c.BVCmp("bvsle", wend, off))
+		eq := c.Eq(t, fx.rngTermRef(o.old, off, ln, ref))
+		fx.assumeGlobal(c.Implies(outside, eq))
+	}
 }
 
 // arrayUpdated: newArr is oldArr with only [wlo, wlo+wlen) possibly changed.  Every remembered
